@@ -66,6 +66,19 @@ def strKind : SCls → PStr → SK
   | .doctype, s => .special .doctype s true
   | _, s => .text s
 
+/-- the markup `strKind`/`emitStr` presuppose for each string class (`PREFIX`, `SUFFIX`, written without substitution?):
+    text classes are bare substituted character data; the generated class table is checked against this in
+    Props/C05.lean (`class_table_live`) -/
+def assumedMarkup : SCls → ClsInfo
+  | .comment => ⟨[60, 33, 45, 45], [45, 45, 62], true⟩                                   -- <!-- -->
+  | .cdata => ⟨[60, 33, 91, 67, 68, 65, 84, 65, 91], [93, 93, 62], true⟩                 -- <![CDATA[ ]]>
+  | .pi => ⟨[60, 63], [62], true⟩                                                        -- <? >
+  | .xmlpi => ⟨[60, 63], [63, 62], true⟩                                                 -- <? ?>
+  | .declaration => ⟨[60, 63], [63, 62], true⟩                                           -- <? ?>
+  | .doctype => ⟨[60, 33, 68, 79, 67, 84, 89, 80, 69, 32], [62, 10], true⟩               -- <!DOCTYPE  >\n
+  | .preformatted => ⟨[], [], true⟩
+  | _ => ⟨[], [], false⟩
+
 def emitStr (c : SCls) (s : PStr) : List TEv :=
   match strKind c s with
   | .text s => if s.isEmpty then [] else [.data s]
@@ -81,6 +94,47 @@ def emitR (f : Fmt) : Node → List TEv
 def emitRL (f : Fmt) : List Node → List TEv
   | [] => []
   | n :: ns => emitR f n ++ emitRL f ns
+end
+
+/-! ### the rendered text as events, through a reader of character data and attribute values
+
+    `emitR` above carries the original strings. `emitRd` carries what a reader makes of the *written* strings:
+    `rd.text` = the tokenizer's treatment of tag-free character data with bs4's `handle_entityref`/`handle_charref`,
+    `rd.attr` = quote stripping + `html.unescape` of a written attribute value (both modelled and proved reversible
+    in C09 for `substitute_xml` and `substitute_html`); inside script/style (`CDATA_CONTENT_ELEMENTS`) the tokenizer
+    hands the text over as it stands. -/
+
+structure Reader where
+  text : PStr → PStr
+  attr : PStr → Option PStr
+
+def evAttrsRd (rd : Reader) (f : Fmt) (attrs : List (PStr × AVal)) : List (PStr × Option PStr) :=
+  (fmtAttributes f attrs).map fun kv =>
+    (kv.1, match kv.2 with
+           | .none => none
+           | v => some ((rd.attr (quoteAttr (substitute f none (valText v)))).getD []))
+
+/-- character data as `output_ready` writes it under a parent named `pname`, and as it is read back (`raw` = the
+    reader is inside a CDATA-content element) -/
+def readData (rd : Reader) (f : Fmt) (pname : Option PStr) (raw : Bool) (c : SCls) (s : PStr) : PStr :=
+  let w := if c = .preformatted then s else substitute f pname s
+  if raw then w else rd.text w
+
+def emitStrRd (rd : Reader) (f : Fmt) (pname : Option PStr) (raw : Bool) (c : SCls) (s : PStr) : List TEv :=
+  match strKind c s with
+  | .text s => if (readData rd f pname raw c s).isEmpty then [] else [.data (readData rd f pname raw c s)]
+  | .special c s nl => .special c s :: (if nl then [.data [10]] else [])
+
+mutual
+def emitRd (p : PCfg) (rd : Reader) (f : Fmt) (pname : Option PStr) (raw : Bool) : Node → List TEv
+  | .tag i kids =>
+    if kids.isEmpty && i.cbe then [.startend (fullName i) (evAttrsRd rd f i.attrs)]
+    else .start (fullName i) (evAttrsRd rd f i.attrs) ::
+      (emitRdL p rd f (some i.name) (p.cdataElems.contains (fullName i)) kids ++ [.stop (fullName i)])
+  | .str c s => emitStrRd rd f pname raw c s
+def emitRdL (p : PCfg) (rd : Reader) (f : Fmt) (pname : Option PStr) (raw : Bool) : List Node → List TEv
+  | [] => []
+  | n :: ns => emitRd p rd f pname raw n ++ emitRdL p rd f pname raw ns
 end
 
 /-! ### bs4's side of the parse -/
